@@ -24,6 +24,8 @@ def run(ctx):
     prims.check(ctx, ['keccak'])
     thorough = ctx.tier == "thorough"
     msgs = [bytes([i]) for i in range(256)]
+    msgs += [b"\x19Ethereum Signed Message:\n" + x for x in (b"0", b"12hello world!", b"5hello", b"", b"1")] + \
+            [b"0x" + b"ab" * 32, b"ab" * 32, b"0x", b"0xdeadbeef", b"0x" + b"11" * 20]
     fills = []  # (byte, n)
     for n in range(0, 1101):
         k = n % 3
@@ -79,7 +81,11 @@ def run(ctx):
 
     # CLI: hash message FILE / stdin
     tmp = tempfile.mkdtemp(prefix="c10-", dir=CACHE)
-    sample = [b"", b"hello world!", bytes(range(256)), rbytes(rng, 999), rbytes(rng, 1000), b"\xff\xfe\x00", rbytes(rng, 100000),
+    PFX = b"\x19Ethereum Signed Message:\n"
+    lookalikes = [PFX + b"0", PFX + b"12hello world!", PFX + b"5hello", PFX + b"12hello", PFX, PFX + b"1", PFX + str(len(PFX) + 3).encode() + PFX + b"1x",
+                  b"0x" + b"ab" * 32, b"ab" * 32, b"0x", b"0xdeadbeef", b"0xDEADBEEF", b"0x" + b"11" * 20, b"0xdeadbeef\n", b"deadbeef", b"0X12", b"0x0",
+                  b"\x19\x00", b"\x19\x01", b"\x19\x45thereum", b"{\"types\":{}}", b"m/44'/60'/0'/0/0"]
+    sample = lookalikes + [b"", b"hello world!", bytes(range(256)), rbytes(rng, 999), rbytes(rng, 1000), b"\xff\xfe\x00", rbytes(rng, 100000),
               b"\xef\xbb\xbf", b"\xef\xbb\xbfhello", b"\xef\xbb\xbf" + rbytes(rng, 40), b"\xfe\xffab", b"\xff\xfea\x00", b"0x1234", b"\n", b"hello\n", b"\r\n",
               b" x ", b"\x00", b"-", b"\x1a", b"\x04tail"]
     runs = []
@@ -98,7 +104,7 @@ def run(ctx):
     # `sign message` signs exactly that digest (file and stdin; non-UTF-8 content in particular)
     phrase = "test test test test test test test test test test test junk"
     key = pyref.bip32_derive(pyref.bip39_seed(phrase, ""), [0x8000002C, 0x8000003C, 0x80000000, 0, 0])
-    smsgs = [b"\xef\xbb\xbfBOM first", b"trailing newline\n", b"", b"hello world!", b"\xff", b"\x80abc", b"\xc3", b"\xed\xa0\x80", bytes(range(256)), rbytes(rng, 32), rbytes(rng, 1000), "é€𝔘".encode(), b"\x00\x00"]
+    smsgs = lookalikes + [b"\xef\xbb\xbfBOM first", b"trailing newline\n", b"", b"hello world!", b"\xff", b"\x80abc", b"\xc3", b"\xed\xa0\x80", bytes(range(256)), rbytes(rng, 32), rbytes(rng, 1000), "é€𝔘".encode(), b"\x00\x00"]
     runs = []
     for i, m in enumerate(smsgs):
         p = os.path.join(tmp, "s%d" % i)
